@@ -7,6 +7,9 @@ From Coq Require Import List NArith ZArith Permutation.
 From Coq.Strings Require Import Byte.
 From SP Require Import Bytes Params Msgpack Crypto Errors Nonce Packets Chunker Rand Sign Verify Encrypt Decrypt Signcrypt
      SignProofs EncryptProofs SigncryptProofs FreshProofs.
+From SP Require GoAst GoAstProofs2 GoLang GoLang2 GoAstSend GoAstSign GoAstProofs GoAstProofs5a GoAstProofs6a GoAstProofs6b RandFailSource.
+From Coq Require String.
+Import String.StringSyntax.
 Import ListNotations.
 Open Scope N_scope.
 
@@ -87,7 +90,82 @@ Theorem C18_signcrypt_fail_closed (c : crypto) signer boxes syms pieces (r : rng
   signcrypt_seal_stream c signer boxes syms pieces r = Err ErrRand.
 Proof. exact (signcrypt_rng_fail c signer boxes syms pieces r). Qed.
 
+
+(* ---- SOURCE TIES: fail closed, at the level of the Go source ----
+   The terms f_saltpack_* are generated on every run from the Go syntax trees of /repo (harness/cmd/gen/goast.go).
+   The constructors of the four sending streams, run by the evaluator of model/GoLang2.v with the randomness sources
+   as explicit byte streams (the shuffle's source ra, the ephemeral-key creator's rb, the payload-key source rk/rc; the
+   signature nonce source r), return the error value ErrRand and leave the stream object as it was - nothing has been
+   handed to the output writer [enc_step] - whenever ANY of their draws cannot be served (the source is short or
+   fails: shuffle / read_full = None), for every crypto record c, every writer, every argument that passes the earlier
+   argument checks.  (Proofs: proofs/RandFailSource.v, corollaries of the init ties of GoAstProofs5a/6a/6b.v.) *)
+Module C18_source.
+Import GoLang GoLang2 GoAstSend GoAstSign GoAstProofs.
+Local Open Scope string_scope.
+
+Theorem C18_source_encrypt_init_fail_closed (c : crypto) (enc_step : gval -> bytes -> gval * GoAstProofs5a.gerr)
+        (st : GoAstProofs5a.es_state) (v : version) (sender : option bytes) (rcpts : list rcpt) (ra rb rc : rng) :
+  known_version v = true -> GoAstProofs5a.check_rcv_err rcpts = None ->
+  (Z.of_nat (List.length rcpts) <= 2147483647)%Z ->
+  (shuffle rcpts ra = None \/ read_full 32 rb = None \/ read_full 32 rc = None) ->
+  let r := run_func2 (GoAstProofs5a.ext_init c enc_step) f_saltpack_encryptStream_init
+                     [GoAstProofs5a.g_es st; g_version v; GoAstProofs5a.g_sender sender;
+                      VList (map GoAstProofs5a.g_rcpt rcpts); VBytes rb; GoAstProofs5a.g_rng ra rc] in
+  fst r = ORet [VErr "ErrRand" []] /\ lookup "es" (snd r) = Some (GoAstProofs5a.g_es st).
+Proof. exact (RandFailSource.Enc.go_encrypt_init_fail_closed c enc_step st v sender rcpts ra rb rc). Qed.
+
+(* ... and when init succeeds, the recipient order, the ephemeral secret and the payload key ARE what shuffle,
+   read_full 32 and read_full 32 deliver from those sources, which are left advanced past exactly the bytes used *)
+Theorem C18_source_encrypt_init_draws (c : crypto) (enc_step : gval -> bytes -> gval * GoAstProofs5a.gerr)
+        (st st' : GoAstProofs5a.es_state) (v : version) (sender : option bytes) (rcpts : list rcpt)
+        (ra rb rc ra' rb' rc' : rng) :
+  GoAstProofs5a.es_init c enc_step st v sender rcpts ra rb rc = GoAstProofs5a.IRet None st' ra' rb' rc' ->
+  exists rs eph_sk,
+    shuffle rcpts ra = Some (rs, ra') /\
+    read_full 32 rb = Some (eph_sk, rb') /\
+    read_full 32 rc = Some (GoAstProofs5a.es_pk st', rc').
+Proof. exact (RandFailSource.Enc.es_init_draws c enc_step st st' v sender rcpts ra rb rc ra' rb' rc'). Qed.
+
+Theorem C18_source_signcrypt_init_fail_closed (c : crypto) (enc_step : gval -> bytes -> gval * GoAstProofs6b.gerr)
+        (st : GoAstProofs6b.sss_state) (boxes : list bytes) (syms : list (bytes * bytes)) (ra rk rb : bytes) :
+  sc_check_receivers boxes syms = Ok tt ->
+  (shuffle (GoAstProofs6b.all_rcpts boxes syms) ra = None \/ read_full 32 rb = None \/ read_full 32 rk = None) ->
+  let r := run_func2 (GoAstProofs6b.ext_init c enc_step) f_saltpack_signcryptSealStream_init
+             [GoAstProofs6b.g_sss st; VList (map VBytes boxes); VList (map GoAstProofs6b.g_sym syms); VBytes rb;
+              GoAstProofs6b.g_rng ra rk] in
+  fst r = ORet [VErr "ErrRand" []] /\ lookup "sss" (snd r) = Some (GoAstProofs6b.g_sss st).
+Proof. exact (RandFailSource.Sc.go_signcrypt_init_fail_closed c enc_step st boxes syms ra rk rb). Qed.
+
+Theorem C18_source_sign_attached_new_fail_closed (c : crypto) (enc_step : gval -> bytes -> gval * GoAstProofs6a.gerr)
+        (v : version) (w : gval) (sk : bytes) (r : rng) :
+  known_version v = true -> read_full 16 r = None ->
+  fst (run_func2 (GoAstProofs6a.ext_new c enc_step r) f_saltpack_newSignAttachedStream
+                 [g_version v; w; GoAstProofs6a.g_signer (Some sk)])
+  = ORet [VNil; VErr "ErrRand" []].
+Proof. exact (RandFailSource.Sig.go_sign_attached_new_fail_closed c enc_step v w sk r). Qed.
+
+Theorem C18_source_sign_detached_new_fail_closed (c : crypto) (enc_step : gval -> bytes -> gval * GoAstProofs6a.gerr)
+        (v : version) (w : gval) (sk : bytes) (r : rng) :
+  known_version v = true -> read_full 16 r = None ->
+  fst (run_func2 (GoAstProofs6a.ext_new c enc_step r) f_saltpack_newSignDetachedStream
+                 [g_version v; w; GoAstProofs6a.g_signer (Some sk)])
+  = ORet [VNil; VErr "ErrRand" []].
+Proof. exact (RandFailSource.Sig.go_sign_detached_new_fail_closed c enc_step v w sk r). Qed.
+(* the block counter that feeds the chunk nonce: encryptionBlockNumber.check of /repo refuses exactly 2^64-1
+   (the statement C18_counter_bound is about), for every counter value *)
+Theorem C18_source_counter_check (n : N) :
+  run_func GoAstProofs.no_ext GoAst.f_saltpack_encryptionBlockNumber_check [VInt (Z.of_N n)]
+  = if block_number_ok n then ORet [VNil] else ORet [VErr "ErrPacketOverflow" []].
+Proof. exact (GoAstProofs2.go_encryptionBlockNumber_check n). Qed.
+End C18_source.
+
 Print Assumptions C18_sign_nonce_is_drawn.
+Print Assumptions C18_source.C18_source_encrypt_init_fail_closed.
+Print Assumptions C18_source.C18_source_encrypt_init_draws.
+Print Assumptions C18_source.C18_source_signcrypt_init_fail_closed.
+Print Assumptions C18_source.C18_source_sign_attached_new_fail_closed.
+Print Assumptions C18_source.C18_source_sign_detached_new_fail_closed.
+Print Assumptions C18_source.C18_source_counter_check.
 Print Assumptions C18_seal_secrets_are_drawn.
 Print Assumptions C18_signcrypt_secrets_are_drawn.
 Print Assumptions C18_shuffle_consumes_a_prefix.
